@@ -2321,6 +2321,40 @@ impl<'a> Visitor<'a, '_, Error> for JSONValidator<'a> {
           #[allow(clippy::needless_collect)]
           let o = o.keys().cloned().collect::<Vec<_>>();
 
+          // A map group with several alternatives matches when one alternative
+          // accounts for the whole object: every alternative starts from the
+          // same set of consumed keys, and keys consumed by an alternative that
+          // failed are given back.
+          if group.group_choices.len() > 1 && !self.state.is_ctrl_map_equality {
+            self.state.is_multi_group_choice = true;
+            let consumed = self.validated_keys.clone();
+            let initial_error_count = self.errors.len();
+            for group_choice in group.group_choices.iter() {
+              self.validated_keys = consumed.clone();
+              self.state.is_cut_present = false;
+              self.cut_value = None;
+              let error_count = self.errors.len();
+              self.visit_group_choice(group_choice)?;
+              for k in o.iter() {
+                if !self
+                  .validated_keys
+                  .as_ref()
+                  .is_some_and(|keys| keys.contains(k))
+                {
+                  self.add_error(format!("unexpected key {:?}", k));
+                }
+              }
+              if self.errors.len() == error_count {
+                self.errors.truncate(initial_error_count);
+                break;
+              }
+            }
+
+            self.state.is_cut_present = false;
+            self.cut_value = None;
+            return Ok(());
+          }
+
           self.visit_group(group)?;
 
           // A key is unexpected unless some group entry consumed its complete
